@@ -7,6 +7,7 @@ every path starts from a fresh ``World`` (module globals / class attributes are 
 """
 from __future__ import annotations
 
+import os
 import time
 
 import z3
@@ -149,15 +150,26 @@ class PathCtx:
             self.solver_seconds += time.time() - t0
         return r
 
+    def sign_decides(self, cond):
+        """True / False if sign lemmas (pyvc.signs) settle the comparison, else None."""
+        if not SIGN_LEMMAS[0]:
+            return None
+        from .signs import sign_decides
+        return sign_decides(self, cond)
+
     def feasible(self, cond):
         """Is pc /\\ cond satisfiable?  unknown counts as feasible (conservative)."""
         q = self.light_decides(cond) if z3.is_expr(cond) else None
+        if q is None and z3.is_expr(cond):
+            q = self.sign_decides(cond)
         if q is not None:
             return q
         return self._check(cond) != z3.unsat
 
     def entails(self, cond):
         q = self.light_decides(cond) if z3.is_expr(cond) else None
+        if q is None and z3.is_expr(cond):
+            q = self.sign_decides(cond)
         if q is not None:
             return q
         return self._check(z3.Not(cond)) == z3.unsat
@@ -237,6 +249,8 @@ class PathCtx:
             self.solver.pop()
             self.solver.set('timeout', self.timeout_ms)
         backend = 'z3'
+        if status == 'unknown' and self.sign_decides(goal) is True:
+            status, backend = 'proved', 'z3-sign-lemmas'
         if status == 'unknown':
             # resolve if-then-else terms whose condition is settled by the simple facts of the path condition,
             # then rewrite; a goal that rewrites to true needs no search at all
@@ -278,6 +292,7 @@ class PathCtx:
 
 
 CROSSCHECK = dict(per_clause=0, seen={})
+SIGN_LEMMAS = [os.environ.get('VERIF_SIGN_LEMMAS', '1') != '0']
 GAVE_UP = {}        # clause name -> number of paths of the current unit on which it stayed undecided
 
 
